@@ -249,3 +249,21 @@ def check(P: Project, R: Report) -> None:
     R.ob("R5", "nothing between reading the requested version and recording the session can raise", not esc_, f"{h.module.rel}:{body_[i_req].lineno}",
          f"`{esc_[0][1] if esc_ else ''}` (line {esc_[0][0] if esc_ else 0}) calls code that can raise for some requested versions (a well-shaped string that is not a calendar date, a non-string): that initialize is answered with -32603 instead of a supported version, no session is recorded, and a library client ends in an error that is neither agreement nor VersionMismatchError",
          sample=f"R5 {len(region)} statement(s) decide the answer; none can raise")
+
+    # ------------------------------------------------------------------ R6: a session record cannot be built without its version
+    R.rule("R6", "the session carries the version it was answered: the record type has no default for its version (a record rebuilt or copied field by field cannot silently take the library's current version), and nothing but create_session's caller chooses it")
+    kind_, si = P.resolve_name(A.MOD_SESSION_MEM, "SessionInfo")
+    R.need(kind_ == "class", "anchor: SessionInfo not found")
+    fld = [s_ for s_ in si.node.body if isinstance(s_, ast.AnnAssign) and isinstance(s_.target, ast.Name) and s_.target.id == "protocol_version"]
+    R.need(fld, "anchor: SessionInfo has no protocol_version field")
+    R.ob("R6", "SessionInfo.protocol_version has no default", fld[0].value is None, f"{si.module.rel}:{fld[0].lineno}",
+         f"`{ast.unparse(fld[0])[:70]}`: a record built without naming the version (a revived, migrated or copied session) says `{ast.unparse(fld[0].value)[:30] if fld[0].value is not None else ''}` whatever the handshake answered", sample="R6 SessionInfo.protocol_version is required")
+    # every construction of the record inside the package names the version
+    n_cons = 0
+    for f_ in P.funcs.values():
+        for c_ in walk_local(f_.node):
+            if isinstance(c_, ast.Call) and P.resolve_call(f_, c_) is si:
+                n_cons += 1
+                names_it = any(k_.arg == "protocol_version" for k_ in c_.keywords) or len(c_.args) >= 3 or any(k_.arg is None for k_ in c_.keywords)
+                R.ob("R6", f"{f_.qual}: the record is built with its version", names_it, f"{f_.module.rel}:{c_.lineno}", f"`{ast.unparse(c_)[:70]}` names no protocol_version")
+    R.need(n_cons >= 1, "anchor: no construction of SessionInfo found")
